@@ -5,6 +5,7 @@
 #ifdef PSTLAB_ORATIO_VERIF
 #include "smt_export.h"
 #include "lit.h"
+#include <cstddef>
 #include <vector>
 
 namespace smt
@@ -16,6 +17,13 @@ namespace smt
     // called at the very beginning of sat_core::record with the clause being recorded..
     typedef void (*record_hook)(const sat_core &, const std::vector<lit> &);
     SMT_EXPORT extern record_hook on_record;
+
+    // storage of the tableau rows: when set, 'new row' and 'delete row' go through these two (the address of a row
+    // decides where it sits in the watch lists, which are hashed by address, hence the order in which rows propagate)..
+    typedef void *(*row_alloc_hook)(std::size_t);
+    typedef void (*row_free_hook)(void *);
+    SMT_EXPORT extern row_alloc_hook on_row_alloc;
+    SMT_EXPORT extern row_free_hook on_row_free;
   } // namespace verif
 } // namespace smt
 #endif
